@@ -305,6 +305,9 @@ func (nfs *Nfs) NFSPROC3_WRITE(args nfstypes.WRITE3args) nfstypes.WRITE3res {
 		errRet(op, &reply.Status, nfstypes.NFS3ERR_NOSPC)
 		return reply
 	}
+	// the post-operation attributes, read while the inode is still locked
+	// (committing releases the lock)
+	fattr := ip.MkFattr()
 	// if not supporting unstable writes, upgrade stability
 	if !nfs.Unstable {
 		args.Stable = nfstypes.FILE_SYNC
@@ -340,7 +343,7 @@ func (nfs *Nfs) NFSPROC3_WRITE(args nfstypes.WRITE3args) nfstypes.WRITE3res {
 		reply.Resok.Count = nfstypes.Count3(count)
 		reply.Resok.Committed = args.Stable
 		reply.Resok.File_wcc.After.Attributes_follow = true
-		reply.Resok.File_wcc.After.Attributes = ip.MkFattr()
+		reply.Resok.File_wcc.After.Attributes = fattr
 	} else {
 		util.DPrintf(1, "Write transaction failed")
 		reply.Status = nfstypes.NFS3ERR_SERVERFAULT
